@@ -287,48 +287,43 @@ impl Envelope {
         // - `Signature` objects with additional metadata assertions, wrapped
         // and then signed by the same key.
         let signature_objects = self.objects_for_predicate(known_values::SIGNED);
-        let result: Option<Result<Option<Envelope>>> = signature_objects.iter().find_map(|signature_object| {
+        // A 'signed' assertion whose object is not a signature made by `key`
+        // (another signer's signature, an obscured or malformed object, a
+        // metadata wrapper that `key` did not sign) is simply not a signature
+        // from `key`: skip it and keep looking, so that the outcome does not
+        // depend on the order in which the assertions happen to be sorted.
+        let result = signature_objects.iter().find_map(|signature_object| {
             let signature_object_subject = signature_object.subject();
             if signature_object_subject.is_wrapped() {
-                if
-                    let Ok(outer_signature_object) = signature_object.object_for_predicate(
-                        known_values::SIGNED
-                    )
-                {
-                    if let Ok(outer_signature) = outer_signature_object.extract_subject::<Signature>() {
-                        if !signature_object_subject.is_signature_from_key(&outer_signature, key) {
-                            return None;
-                        }
-                    } else {
-                        return Some(Err(anyhow::anyhow!("Unexpected outer signature object type.")));
-                    }
+                // The wrapper (signature plus metadata) must itself be signed by `key`.
+                let outer_verified = signature_object
+                    .objects_for_predicate(known_values::SIGNED)
+                    .iter()
+                    .any(|outer_signature_object| {
+                        outer_signature_object
+                            .extract_subject::<Signature>()
+                            .map(|outer_signature| signature_object_subject.is_signature_from_key(&outer_signature, key))
+                            .unwrap_or(false)
+                    });
+                if !outer_verified {
+                    return None;
                 }
-
-                let signature_metadata_envelope = signature_object_subject.unwrap_envelope().unwrap();
-                if let Ok(signature) = signature_metadata_envelope.extract_subject::<Signature>() {
-                    let signing_target = self.subject();
-                    if !signing_target.is_signature_from_key(&signature, key) {
-                        return Some(Err(anyhow::anyhow!("Inner signature not made with same key as outer signature.")));
-                    }
-                    Some(Ok(Some(signature_metadata_envelope)))
-                } else {
-                    Some(Err(anyhow::anyhow!("Unexpected inner signature object type.")))
+                let signature_metadata_envelope = signature_object_subject.unwrap_envelope().ok()?;
+                let signature = signature_metadata_envelope.extract_subject::<Signature>().ok()?;
+                if !self.subject().is_signature_from_key(&signature, key) {
+                    return None;
                 }
-            } else if let Ok(signature) = signature_object.extract_subject::<Signature>() {
+                Some(signature_metadata_envelope)
+            } else {
+                let signature = signature_object.extract_subject::<Signature>().ok()?;
                 if !self.is_signature_from_key(&signature, key) {
                     return None;
                 }
-                Some(Ok(Some(signature_object.clone())))
-            } else {
-                Some(Err(anyhow::anyhow!("Unexpected signature object type.")))
+                Some(signature_object.clone())
             }
         });
 
-        match result {
-            Some(Ok(Some(envelope))) => Ok(Some(envelope)),
-            Some(Err(err)) => Err(err),
-            _ => Ok(None),
-        }
+        Ok(result)
     }
 }
 
